@@ -420,6 +420,7 @@ func cmdC04(args []string) error {
 	progress := fs.String("progress", "", "mmap'ed progress file")
 	skip := fs.String("skip", "", "comma separated class:ci:idx inputs to skip (they killed an earlier worker)")
 	after := fs.String("after", "", "resume after this input (class:ci:idx)")
+	extra := fs.String("extra", "", "file with further inputs (hex, one per line), executed as class \"fuzz\" after the enumerated classes")
 	fs.Parse(args)
 	var e *c04entry
 	for _, x := range c04entries() {
@@ -493,7 +494,7 @@ func cmdC04(args []string) error {
 	}
 	waiting := *after != ""
 	count := 0
-	c04inputs(*e, *tier == "thorough", func(in c04input) bool {
+	handle := func(in c04input) bool {
 		id := fmt.Sprintf("%s:%d:%d", in.class, in.ci, in.idx)
 		if waiting {
 			if id == *after {
@@ -579,7 +580,20 @@ func cmdC04(args []string) error {
 				"hex": trunc(hex.EncodeToString(in.b), 600), "alloc": alloc, "ms": int64(el / time.Millisecond), "panic": trunc(p, 160)})
 		}
 		return true
-	})
+	}
+	c04inputs(*e, *tier == "thorough", handle)
+	if *extra != "" {
+		// inputs found by the coverage-guided fuzzer (fuzz_test.go)
+		if xb, err := os.ReadFile(*extra); err == nil {
+			for i, ln := range strings.Split(string(xb), "\n") {
+				b, err := hex.DecodeString(strings.TrimSpace(ln))
+				if err != nil || (len(b) == 0 && strings.TrimSpace(ln) == "") {
+					continue
+				}
+				handle(c04input{"fuzz", 0, i, b})
+			}
+		}
+	}
 	flush()
 	return nil
 }
